@@ -247,6 +247,8 @@ def _const_rows(e, module_consts):
     for x in e.elts:
         if isinstance(x, ast.Constant) and isinstance(x.value, (str, int, float)) and not isinstance(x.value, bool):
             rows.append((x,))
+        elif isinstance(x, ast.Name):
+            rows.append((x,))   # a local / parameter: allowed when the loop body does not assign it (checked by the caller)
         elif isinstance(x, (ast.Tuple, ast.List)) and x.elts and all(
                 isinstance(y, ast.Constant) and isinstance(y.value, (str, int, float)) for y in x.elts):
             rows.append(tuple(x.elts))
@@ -279,6 +281,15 @@ class _Unroll(ast.NodeTransformer):
         width = len(rows[0])
         if (single and width != 1 and False) or (not single and width != len(names)):
             return st
+        row_names = {y.id for r in rows for y in r if isinstance(y, ast.Name)}
+        if row_names:
+            if st.iter is not None and isinstance(st.iter, ast.Name):
+                return st   # a module constant must consist of literals only
+            if any(isinstance(n, ast.Name) and n.id in row_names and isinstance(n.ctx, (ast.Store, ast.Del))
+                   for b in st.body for n in ast.walk(b)):
+                return st
+            if any(isinstance(n, (*FUNC, ast.Lambda)) for b in st.body for n in ast.walk(b)):
+                return st   # a closure would capture the loop variable
         for n in ast.walk(st):
             if n is not st and isinstance(n, (ast.Break, ast.Continue)):
                 return st
